@@ -113,6 +113,7 @@ type VC struct {
 	splitLits           []string
 	opaquePreds         map[string]*opaqueInfo
 	noSlice             bool
+	callOrds            map[ssa.Instruction]int
 	undefinedHeap       map[string]bool
 	heapAlloc           map[string]string // havoc'd heap version -> alloc bound valid for every pointer stored in it
 }
